@@ -844,6 +844,9 @@ class Compound(Event, abc.ABC, list[T], typing.Generic[T]):
 
     def destructive_copy(self) -> Compound[T]:
         empty_copy = self.empty_copy()
+        # 'empty_copy' hands over the side attributes by reference, but a
+        # copy mustn't share its (mutable) tempo with its source.
+        empty_copy.tempo = self.tempo.copy()
         empty_copy.extend([event.destructive_copy() for event in self])
         return empty_copy
 
